@@ -464,6 +464,56 @@ static Verdict run_C15(const Scn &s) {
   return v;
 }
 
+// ---------------------------------------------------------------- C18 on the command-line path
+// On the command line the caller's random seed is 256 bytes of rand() seeded from the clock (not NUL terminated).
+// Two encryptions of the same file under the same key at different (simulated) times must get different IV fields,
+// and the IV fields of one file must be pairwise distinct.
+Verdict run_C18_cli(const Scn &s) {
+  Verdict v;
+  char tmpl[512];
+  snprintf(tmpl, sizeof tmpl, "%s/c18-XXXXXX", g_outdir.empty() ? "/tmp" : g_outdir.c_str());
+  if (!mkdtemp(tmpl)) { snprintf(tmpl, sizeof tmpl, "/tmp/c18-XXXXXX"); if (!mkdtemp(tmpl)) { v.skipped = true; v.skip_reason = "no-scratch-dir"; return v; } }
+  std::string dir = tmpl;
+  Bytes key = s.getb("key");
+  std::string k64 = b64(key.data(), 16);
+  Bytes outs[2];
+  bool nonul[2] = {false, false};
+  for (int q = 0; q < 2; q++) {
+    Rec r;
+    r.kind = "argv";
+    long simtime = s.geti(q ? "t2" : "t1");
+    r.data = key;
+    push_args(r, {"wencry", "-e", "-i", "in0", "-o", "out0", "-k", k64, "--cmode", std::to_string(s.geti("cm")), "--hmode", std::to_string(s.geti("hm")), "-n"});
+    r.a = {simtime, s.geti("len"), s.geti("pseed"), s.geti("cm"), s.geti("hm"), 0, 1, simsched::ST_UNIFORM, 0, s.geti("ss0", 1) + q, 0, 0};
+    int st;
+    std::vector<Outcome> o = in_child(dir + "/r" + std::to_string(q), [&]() { Outcome x = exec_op(r, Bytes()); send_outcome(x); }, st);
+    if (!(o.size() == 1 && o[0].status == 1 && o[0].ret && WIFEXITED(st) && WEXITSTATUS(st) == 0)) { rm_rf(dir); v.skipped = true; v.skip_reason = "cli-encrypt-did-not-succeed"; return v; }
+    outs[q] = o[0].out;
+    if (!outs[q].empty()) outs[q].pop_back();   // exists flag
+    // what seed did the parser draw? (same libc sequence: srand(time) in get_v_opt, then 256 x rand() because -k is given)
+    srand((unsigned)simtime);
+    nonul[q] = true;
+    for (int i = 0; i < 256; i++) if ((uint8_t)rand() == 0) nonul[q] = false;
+    if (nonul[q]) g_stats.add("probe.cli_seed_without_nul_in_256_bytes", 1);
+  }
+  rm_rf(dir);
+  g_stats.add("probe.cli_encryption_pairs", 1);
+  v.nontrivial = true;
+  v.case_hash = fnv1a_u64(fnv1a_u64(FNV_INIT, (uint64_t)s.geti("t1")), (uint64_t)s.geti("t2") * 31 + s.geti("cm"));
+  const size_t T = 4, hs = 48 + 20 * T;
+  if (outs[0].size() < hs || outs[1].size() < hs) { v.skipped = true; v.skip_reason = "cli-output-too-short"; v.nontrivial = false; return v; }
+  v.trace_hash = fnv1a(fnv1a(FNV_INIT, outs[0].data(), outs[0].size()), outs[1].data(), outs[1].size());
+  auto V = [&](const std::string &c, const std::string &d) { Verdict x; x.violation = true; x.cls = c; x.detail = d; x.case_hash = v.case_hash; x.nontrivial = true; x.trace_hash = v.trace_hash; return x; };
+  for (int q = 0; q < 2; q++)
+    for (size_t a = 0; a < T; a++)
+      for (size_t b = a + 1; b < T; b++)
+        if (memcmp(&outs[q][48 + 20 * a], &outs[q][48 + 20 * b], 20) == 0) return V("header-iv-repeated@cli", "command-line encryption: header IV slots " + std::to_string(a) + " and " + std::to_string(b) + " are equal");
+  if (memcmp(&outs[0][48], &outs[1][48], 20 * T) == 0)
+    return V("iv-independent-of-seed@cli", "two command-line encryptions at different times (" + std::to_string(s.geti("t1")) + ", " + std::to_string(s.geti("t2")) + "; seeds " +
+                                                (nonul[0] && nonul[1] ? "both without a zero byte in their 256 bytes" : "as drawn by the parser") + ") produced the same IV fields");
+  return v;
+}
+
 extern const PropDef PROPS_HISTORY[] = {
     {"C15", plan_C15, gen_C15, run_C15},
     {nullptr, nullptr, nullptr, nullptr}};
